@@ -45,6 +45,7 @@ FLAT = [(c, t) for c in ALL_CLASSES for t in TOK[c]]
 IDN_LABELS = ["é", "münchen", "中文", "пример", "café", "ελ"]
 for _l in IDN_LABELS:  # stable under Python's IDNA codec, else the *harness* would be wrong
     assert _l.encode("idna").decode("idna") == _l, _l
+CASEFOLD_LABELS = ["straße", "οδός", "fußball"]
 ASCII_LABELS = ["example", "lemonde", "a", "b2", "my-site", "x", "shop", "news", "blog", "test1"]
 NONCANONICAL_ACE = ["xn--example-", "xn--a-", "xn--paypal-", "XN--b-"]   # valid punycode, not canonical A-labels: must not be decoded
 TLDS = ["com", "fr", "org", "co.uk", "net", "de", "io"]
@@ -136,7 +137,8 @@ def _name_hosts(draw, idn=True, upper=True, max_sub=2, tlds=TLDS, labels=ASCII_L
         else:
             u = draw(st.sampled_from(IDN_LABELS))
             if form == "idn":
-                out.append(u)
+                # raw labels also include letters whose casefold() differs from lower() (never respelt as punycode: IDNA2003 maps them)
+                out.append(draw(st.sampled_from(IDN_LABELS + CASEFOLD_LABELS)))
             elif form == "puny":
                 out.append(puny(u))
             else:
